@@ -28,7 +28,6 @@ structure Round where
   pre : PinMap
   deriving Repr
 
-abbrev Logs := List (Nat × List C04.LogEntry)    -- per acting member
 
 def healthyPeer (base : C04.Cfg) (p : Nat) : Bool :=
   (C03.stateOf { desc := false, rmin := 1, rmax := 1, peers := base.peers, current := [], blacklist := [], priority := [] } p).healthy
